@@ -45,7 +45,16 @@ func (k msgServer) ClaimReward(goCtx context.Context, msg *types.MsgClaimReward)
 		return nil, err
 	}
 
+	workerRewardBeforeRepay := workerReward
 	k.RepayPledgeDebt(ctx, msg.Creator, []*sdk.Coin{&claimReward, &workerReward})
+
+	// storage income that repaid pledge debt is collateral now: it belongs into the node escrow
+	if workerReward.IsLT(workerRewardBeforeRepay) {
+		err = k.bank.SendCoinsFromModuleToModule(ctx, markettypes.ModuleName, types.ModuleName, sdk.Coins{workerRewardBeforeRepay.Sub(workerReward)})
+		if err != nil {
+			return nil, err
+		}
+	}
 
 	if !claimReward.IsZero() {
 		logger.Debug("CoinTrace: block reward", "from", types.ModuleName, "to", msg.GetSigners()[0], "amount", claimReward.String())
